@@ -144,6 +144,7 @@ package middleware
 //@   ensures r.OnRetryHook == nil ==> calls(HOOK) == old(calls(HOOK)) [no-hook-no-call]
 //@   inv loop 1: 1 <= retryNum && retryNum <= maxRetries(r.MaxRetries) && calls(H) == old(calls(H)) + retryNum && err != nil && err == ret(H, 1, calls(H) - 1) && producedMessages == ret(H, 0, calls(H) - 1) [attempt-accounting]
 //@   inv loop 1: forall j int :: old(calls(H)) <= j && j < calls(H) ==> ret(H, 1, j) != nil [all-attempts-so-far-failed]
+//@   inv loop 1: ctx != nil && (r.MaxElapsedTime > 0 ==> ctxtimeout(ctx) == r.MaxElapsedTime) [every-wait-also-listens-to-a-context-that-ends-when-MaxElapsedTime-has-passed]
 //@   inv loop 1: ncalls(NB) == old(ncalls(NB)) + retryNum - 1 && ncalls(TA) == old(ncalls(TA)) + retryNum - 1 && recvs(timer) == old(recvs(timer)) + retryNum - 1 [one-backoff-and-one-timer-per-retry]
 //@   inv loop 1: (r.OnRetryHook != nil ==> calls(HOOK) == old(calls(HOOK)) + retryNum - 1) && (r.OnRetryHook == nil ==> calls(HOOK) == old(calls(HOOK))) [one-hook-call-per-failed-retry]
 //@   inv loop 1: r.OnRetryHook != nil ==> (forall j int :: 0 <= j && j < retryNum - 1 ==> arg(HOOK, 0, old(calls(HOOK)) + j) == j + 1 && arg(HOOK, 1, old(calls(HOOK)) + j) == sret(NB, 0, old(ncalls(NB)) + j)) [hook-log]
